@@ -250,3 +250,35 @@ def run(ctx, rep):
         rep.ob('R07.g', P + '::load_consumer_offsets', 'loads ' + k, ok, c.where() if c else None,
                'reached on every successful path' if ok else 'offsets of kind %s are not loaded on every successful path' % k)
     # next: the stored offset + 1 (shared with C02 R02.d) — consumer kind selects map is covered by R07.a
+
+    # ------------------------------------------------------------ R07.h the offset file codec
+    rep.rule('R07.h', 'durability codec: an offset is saved as its 8 little-endian bytes under <kind dir>/<consumer id>; load rebuilds kind, id (file name), offset (file content) and path from exactly those', floor=9, analysis='A9+A11')
+    import forms
+    FPS = '<server::streaming::partitions::storage::FilePartitionStorage as server::streaming::storage::PartitionStorage>::'
+    CO = 'server::streaming::partitions::partition::ConsumerOffset'
+    forms.check_call_args(ctx, rep, 'R07.h', {FPS + 'save_consumer_offset': {'PersisterKind::overwrite': ['path, u64::to_le_bytes(offset)']}})
+    forms.check_aggregates(ctx, rep, 'R07.h', {
+        FPS + 'load_consumer_offsets': {CO: {'kind': 'kind', 'consumer_id': 'str::parse(OsString::into_string(DirEntry::file_name(…)))', 'offset': 'AsyncReadExt::read_u64_le(file::open($str))', 'path': '::to_string(Path::to_str(DirEntry::path(…)))'}},
+        CO + '::new': {CO: {'kind': 'kind', 'consumer_id': 'consumer_id', 'offset': 'offset'}},
+    })
+    # the path of a new offset is "<dir>/<consumer id>": both values flow into the format call
+    nb = ctx.fn_body(CO + '::new')
+    fmt_args = set()
+    for c2 in nb.calls:
+        if c2.name.endswith('Argument::new_display') or c2.name.endswith('Argument::new_debug'):
+            e = nb.expr_operand(c2.args[0])
+            for x in walk(e):
+                if x[0] in ('param', 'upvar'):
+                    fmt_args.add(x[1])
+    if not fmt_args:
+        # format_args captured through a tuple: look at the tuple operands
+        for blk in sorted(nb.reach):
+            for st in nb.stmts(blk):
+                rv = st.get('rv')
+                if rv and rv['r'] == 'agg' and rv.get('kind') == 'tuple':
+                    for op in rv['ops']:
+                        e = nb.expr_operand(op)
+                        for x in walk(e):
+                            if x[0] in ('param', 'upvar'):
+                                fmt_args.add(x[1])
+    rep.ob('R07.h', CO + '::new', 'path = dir / consumer id', {'path', 'consumer_id'} <= fmt_args, None, 'format arguments: %s' % sorted(fmt_args))
